@@ -600,4 +600,10 @@ theorem C05_grace_counts_from_first_failure (lower : Bytes → Bytes) (P : Polic
         exact hpost _ (List.mem_of_getElem? this)
 
 
+/-- Tie (T1), second wave: helpers, stores and second callers on this property's path (sso_isProviderUnavailable) — call/branch/store skeletons
+regenerated from the source on every run against the expectations frozen here. -/
+theorem C05_wiring2 :
+    Sso.Generated.skel_sso_isProviderUnavailable =
+      ["return"] := by decide
+
 end Sso.Proxy
